@@ -107,10 +107,12 @@ func NewLogger(config log.AccessLogConfig, logger log.Logger) gin.HandlerFunc {
 			return
 		}
 
-		// Note filter will modify the request/response headers, though
-		// they have already been written so it doesn't matter.
+		// Note filter will modify the given headers. The request headers have
+		// already been read so it doesn't matter, though the response headers
+		// are still used to write any trailers after the handler returns so
+		// must be copied.
 		requestHeaders := requestHeaderFilter.Filter(c.Request.Header)
-		responseHeaders := responseHeaderFilter.Filter(c.Writer.Header())
+		responseHeaders := responseHeaderFilter.Filter(c.Writer.Header().Clone())
 
 		req := &loggedRequest{
 			Proto:           c.Request.Proto,
